@@ -7,6 +7,7 @@ from typing import Dict, List, Optional, Set, Tuple
 
 from ..core import AnalysisError, RuleSpec
 from ..pymodel import call_name
+from .. import astq
 from . import c09
 
 EXPLANATION = (
@@ -145,13 +146,20 @@ def r1_error_coverage(ctx, rep):
 
 
 def const_list(py, mod: str, name: str) -> List[str]:
+    """elements of a module-level list/tuple constant, or keys of a dict whose values are class names"""
+    v = py.const_value(mod, name)
+    if isinstance(v, (list, tuple)) and v:
+        return [x for x in v if isinstance(x, str)]
+    if isinstance(v, dict) and v:
+        return [k for k in v if isinstance(k, str)]
+    # a dict literal whose values are not constants (class objects): take the constant keys
     for st in py.modules[mod].body:
-        if isinstance(st, ast.Assign) and any(isinstance(t, ast.Name) and t.id == name for t in st.targets):
-            if isinstance(st.value, ast.List):
-                return [e.value for e in st.value.elts if isinstance(e, ast.Constant)]
-            if isinstance(st.value, ast.Dict):
-                return [k.value for k in st.value.keys if isinstance(k, ast.Constant)]
-    raise AnalysisError(f"{mod}.{name} not found")
+        tgt = st.targets[0] if isinstance(st, ast.Assign) and len(st.targets) == 1 else getattr(st, "target", None)
+        if isinstance(tgt, ast.Name) and tgt.id == name and isinstance(getattr(st, "value", None), ast.Dict):
+            ks = [py.eval_const(k, py.module_env(mod)) for k in st.value.keys if k is not None]
+            if ks and all(isinstance(k, str) for k in ks):
+                return ks
+    raise AnalysisError(f"{mod}.{name} not found as a constant table")
 
 
 # classes whose instances can be reached from an exported module through ATTRIBUTES (reviewed;
@@ -186,9 +194,32 @@ def proctype_values(py, cls: str) -> Set[str]:
 def implementation_proctype_replaced(py) -> bool:
     fn = py.func("FortranCodeUnit.correlate")
     for n in ast.walk(fn):
-        if isinstance(n, ast.FunctionDef) and n.name == "assign_implementation_attributes":
-            return "proc.proctype = base.proctype" in ast.unparse(n)
+        if isinstance(n, ast.Assign) and any(isinstance(t, ast.Attribute) and t.attr == "proctype" for t in n.targets) \
+                and isinstance(n.value, ast.Attribute) and n.value.attr == "proctype":
+            return True
     return False
+
+
+def str_prefix(py, e: ast.AST) -> str:
+    """constant prefix of a string-valued expression"""
+    if isinstance(e, ast.Constant) and isinstance(e.value, str):
+        return e.value
+    if isinstance(e, ast.JoinedStr):
+        out = ""
+        for v in e.values:
+            if isinstance(v, ast.Constant):
+                out += str(v.value)
+            else:
+                break
+        return out
+    if isinstance(e, ast.BinOp) and isinstance(e.op, (ast.Add, ast.Mod)):
+        left = str_prefix(py, e.left)
+        if isinstance(e.op, ast.Mod):
+            return left.split("%")[0]
+        return left
+    if isinstance(e, ast.Call) and isinstance(e.func, ast.Attribute) and e.func.attr == "format":
+        return str_prefix(py, e.func.value).split("{")[0]
+    return ""
 
 
 def r2_tables_agree(ctx, rep):
@@ -208,12 +239,19 @@ def r2_tables_agree(ctx, rep):
     rep.ob("literal keys read by dict2obj are written by obj2dict", ok,
            f"reader keys {sorted(rkeys)} subset of writer keys {sorted(wkeys)}" if ok else
            f"dict2obj reads {sorted(rkeys - wkeys)} which obj2dict never writes", py.nloc(d2o))
-    both = "for attrib in ATTRIBUTES" in ast.unparse(o2d) and "for key in ATTRIBUTES" in ast.unparse(d2o)
+    def iterates_table(fn) -> bool:
+        return any(isinstance(n, (ast.For, ast.comprehension)) and ast.unparse(n.iter) == "ATTRIBUTES" for n in ast.walk(fn))
+    both = iterates_table(o2d) and iterates_table(d2o)
     rep.ob("both directions iterate ATTRIBUTES", both, "writer and reader share the attribute table", py.nloc(o2d))
-    # every reachable class maps to an ENTITIES key
-    ctor = "ENTITIES[obj_type]" in ast.unparse(d2o) and "extDict.get('proctype', extDict['obj']).lower()" in ast.unparse(d2o)
+    # every reachable class maps to an ENTITIES key: the constructor is looked up with the lower-cased proctype/obj
+    subs = [n for n in ast.walk(d2o) if isinstance(n, ast.Subscript) and ast.unparse(n.value) == "ENTITIES"]
+    if not subs:
+        raise AnalysisError("dict2obj: ENTITIES[...] lookup not found")
+    key_exprs = astq.expand_locals(subs[0].slice, d2o)
+    keytxt = " ".join(ast.unparse(e) for e in key_exprs)
+    ctor = "'proctype'" in keytxt and "'obj'" in keytxt and (".lower()" in keytxt or ".casefold()" in keytxt)
     if not ctor:
-        raise AnalysisError("dict2obj: entity lookup `ENTITIES[extDict.get('proctype', extDict['obj']).lower()]` changed")
+        raise AnalysisError(f"dict2obj: the ENTITIES key is no longer the lower-cased proctype/obj ({keytxt[:120]})")
     for cls in sorted(reachable_classes(py)):
         if cls == "FortranModuleProcedureImplementation" and implementation_proctype_replaced(py):
             rep.ob(f"exported class {cls} -> ENTITIES", True,
@@ -231,11 +269,30 @@ def r2_tables_agree(ctx, rep):
                 f"{cls} is exported with obj/proctype {bad}, which is not a key of ENTITIES {ents}: loading the "
                 f"description raises KeyError"), py.nloc(d2o))
     # './' prefix written, exactly one leading component stripped
-    w = 'f"./{intObj.get_url()}"' in py.sources["external_project"] or "f'./{intObj.get_url()}'" in ast.unparse(o2d)
-    r = ".split('/', 1)[-1]" in ast.unparse(d2o)
+    wvals = [v for n in ast.walk(o2d) if isinstance(n, ast.Dict) for k, v in zip(n.keys, n.values)
+             if isinstance(k, ast.Constant) and k.value == "external_url"]
+    wvals += [n.value for n in ast.walk(o2d) if isinstance(n, ast.Assign) and any(
+        isinstance(t, ast.Subscript) and isinstance(t.slice, ast.Constant) and t.slice.value == "external_url" for t in n.targets)]
+    if not wvals:
+        raise AnalysisError("obj2dict: the value written for 'external_url' was not found")
+    prefixes = {str_prefix(py, x) for v in wvals for x in astq.expand_locals(v, o2d) if str_prefix(py, x)}
+    w = prefixes == {"./"}
+    # reader: exactly one leading component is dropped: .split('/', 1)[-1] | .partition('/')[2] | removeprefix('./')
+    r = False
+    for n in ast.walk(d2o):
+        if isinstance(n, ast.Subscript) and isinstance(n.value, ast.Call) and isinstance(n.value.func, ast.Attribute):
+            c = n.value
+            if c.func.attr == "split" and [ast.unparse(a) for a in c.args] == ["'/'", "1"] and ast.unparse(n.slice) in ("-1", "1"):
+                r = True
+            if c.func.attr == "partition" and [ast.unparse(a) for a in c.args] == ["'/'"] and ast.unparse(n.slice) == "2":
+                r = True
+        if isinstance(n, ast.Call) and isinstance(n.func, ast.Attribute) and n.func.attr == "removeprefix" and \
+                [ast.unparse(a) for a in n.args] == ["'./'"]:
+            r = True
     rep.ob("url prefix written/stripped symmetrically", w and r,
            "writer prefixes './', reader strips one leading path component" if w and r else
-           "the './' prefix convention differs between obj2dict and dict2obj", py.nloc(d2o))
+           f"the './' prefix convention differs between obj2dict (prefixes written: {sorted(prefixes)}) and dict2obj "
+           f"(strips one component: {r})", py.nloc(d2o))
     # Ext classes: constructor signature (name, url, parent) and the attributes dict2obj relies on
     for k in ents:
         pass
@@ -256,41 +313,55 @@ def r2_tables_agree(ctx, rep):
 def r3_local_precedence(ctx, rep):
     py = ctx.py
     fn = py.func("fortran_project.find_used_modules")
+    params = [x.arg for x in fn.args.args]
+    if len(params) < 4:
+        raise AnalysisError("find_used_modules: expected (entity, modules, submodules, external_modules)")
+    local_p, ext_p = params[1], params[3]
     found = False
     for n in ast.walk(fn):
-        if isinstance(n, ast.Call) and call_name(n) in ("chain", "itertools.chain") and len(n.args) == 2:
-            a, b = ast.unparse(n.args[0]), ast.unparse(n.args[1])
-            if {a, b} != {"modules", "external_modules"}:
-                continue
-            found = True
-            par = py.parents.get(n)
-            if isinstance(par, ast.For) and par.iter is n:
-                order_ok = (a, b) == ("modules", "external_modules")
-                brk = any(isinstance(x, ast.Break) for x in ast.walk(par))
-                ok = order_ok and brk
-                rep.ob("find_used_modules: local modules searched first", ok,
-                       "first match wins and local modules are enumerated before external ones" if ok else
-                       ("external modules are enumerated before local ones" if not order_ok else
-                        "no break at the first match: a later (external) candidate overrides the local module"),
-                       py.nloc(par))
-            else:
-                rep.ob("find_used_modules: local modules searched first", False,
-                       "candidates are collected into a mapping/sequence where a later entry replaces an earlier "
-                       "one: an external module shadows a local module of the same name", py.nloc(n))
+        seq = None
+        if isinstance(n, ast.Call) and call_name(n) in ("chain", "itertools.chain"):
+            seq = [ast.unparse(x) for x in n.args]
+        elif isinstance(n, ast.BinOp) and isinstance(n.op, ast.Add):
+            seq = [ast.unparse(n.left), ast.unparse(n.right)]
+        elif isinstance(n, (ast.List, ast.Tuple)) and any(isinstance(e, ast.Starred) for e in n.elts):
+            seq = [ast.unparse(e.value) for e in n.elts if isinstance(e, ast.Starred)]
+        if not seq or not ({local_p, ext_p} <= {re.sub(r"^list\((.*)\)$", r"\1", x) for x in seq}):
+            continue
+        seq = [re.sub(r"^list\((.*)\)$", r"\1", x) for x in seq]
+        found = True
+        par = py.parents.get(n)
+        if isinstance(par, ast.For) and par.iter is n:
+            order_ok = seq.index(local_p) < seq.index(ext_p)
+            brk = any(isinstance(x, (ast.Break, ast.Return)) for x in ast.walk(par))
+            ok = order_ok and brk
+            rep.ob("find_used_modules: local modules searched first", ok,
+                   "first match wins and local modules are enumerated before external ones" if ok else
+                   ("external modules are enumerated before local ones" if not order_ok else
+                    "no break at the first match: a later (external) candidate overrides the local module"),
+                   py.nloc(par))
+        elif isinstance(par, ast.Call) and call_name(par) == "next" or isinstance(par, ast.comprehension) and \
+                isinstance(py.parents.get(py.parents.get(par)), ast.Call) and call_name(py.parents[py.parents[par]]) == "next":
+            ok = seq.index(local_p) < seq.index(ext_p)
+            rep.ob("find_used_modules: local modules searched first", ok,
+                   "first match (next) over local-then-external candidates" if ok else "external modules are enumerated first", py.nloc(n))
+        else:
+            rep.ob("find_used_modules: local modules searched first", False,
+                   "candidates are collected into a mapping/sequence where a later entry replaces an earlier "
+                   "one: an external module shadows a local module of the same name", py.nloc(n))
     if not found:
-        raise AnalysisError("find_used_modules: chain(modules, external_modules) not found")
+        raise AnalysisError(f"find_used_modules: no construct enumerates `{local_p}` together with `{ext_p}`")
     # Project.find: all local collections before all external ones
-    vals = []
-    for st in py.modules["fortran_project"].body:
-        if isinstance(st, ast.Assign) and any(isinstance(t, ast.Name) and t.id == "LINK_TYPES" for t in st.targets):
-            vals = [v.value for v in st.value.values if isinstance(v, ast.Constant)]
-    if not vals:
-        raise AnalysisError("LINK_TYPES not found")
+    lt = py.const_value("fortran_project", "LINK_TYPES")
+    if not isinstance(lt, dict) or not lt:
+        raise AnalysisError("fortran_project.LINK_TYPES is not a constant dictionary")
+    vals = list(lt.values())
     order = list(dict.fromkeys(vals))
     first_ext = next((i for i, v in enumerate(order) if v.startswith("ext")), len(order))
     late_local = [v for v in order[first_ext:] if not v.startswith("ext")]
     pf = py.func("Project.find")
-    uses_values = "LINK_TYPES.values()" in ast.unparse(pf)
+    uses_values = any(isinstance(c, ast.Call) and call_name(c) in ("LINK_TYPES.values", "LINK_TYPES.items") for c in ast.walk(pf)) or \
+        any(isinstance(n, (ast.For, ast.comprehension)) and ast.unparse(n.iter) == "LINK_TYPES" for n in ast.walk(pf))
     ok = not late_local or not uses_values
     rep.ob("Project.find: local collections precede external ones", ok,
            f"search order {order}" if ok else
@@ -302,86 +373,132 @@ def r3_local_precedence(ctx, rep):
 def r4_export_scope(ctx, rep):
     py = ctx.py
     dm = py.func("external_project.dump_modules")
-    t = ast.unparse(dm)
-    ok = "for module in project.modules" in t and "obj2dict(module)" in t
+    srcs = [ast.unparse(n.iter) for n in ast.walk(dm) if isinstance(n, (ast.For, ast.comprehension))]
+    conv = [c for c in py.walk_calls(dm) if call_name(c) == "obj2dict"]
+    ok = bool(conv) and bool(srcs) and all(x.endswith(".modules") or not x.startswith("project.") for x in srcs) and \
+        any(x.endswith("project.modules") for x in srcs)
     rep.ob("dump_modules exports project.modules only", ok, "exactly the project's own modules are exported"
-           if ok else "dump_modules no longer exports exactly project.modules", py.nloc(dm))
+           if ok else f"dump_modules iterates {srcs}: not exactly project.modules", py.nloc(dm))
     o2d = py.func("external_project.obj2dict")
-    first = [s for s in o2d.body if not isinstance(s, ast.Expr)][0]
-    ok = isinstance(first, ast.If) and "external_url" in ast.unparse(first.test) and "return None" in ast.unparse(first)
+    ev = astq.trace(o2d)
+    first_ret = next((e for e in ev if e.kind == "return"), None)
+    ok = first_ret is not None and any("external_url" in c for c in first_ret.cond_texts()) and \
+        (first_ret.value is None or ast.unparse(first_ret.value) == "None") and \
+        not any(e.kind == "assign" for e in ev[:ev.index(first_ret)])
     rep.ob("obj2dict skips entities that are themselves external", ok, "", py.nloc(o2d))
     for q in ("FortranBase.get_url", "FortranBase.full_url"):
         fn = py.func(q)
-        first = [s for s in fn.body if not isinstance(s, ast.Expr)][0]
-        ok = isinstance(first, ast.If) and "external_url" in ast.unparse(first.test) and \
-            "return self.external_url" in ast.unparse(first)
+        ev = astq.trace(fn)
+        first_ret = next((e for e in ev if e.kind == "return"), None)
+        ok = first_ret is not None and any("external_url" in c and not c.startswith("not ") for c in first_ret.cond_texts()) and \
+            first_ret.value is not None and ast.unparse(first_ret.value) == "self.external_url"
         rep.ob(f"{q}: external_url short-circuits", ok, "an external entity's URL is its recorded external_url"
                if ok else "URL of an external entity is recomputed locally", py.nloc(fn))
+
+
+def _slash_normalisation(fn) -> Optional[Tuple[ast.AST, str]]:
+    """the statement that makes a url variable end with '/': `if url[-1] != '/': url = url + '/'`,
+    `if not url.endswith('/'): url += '/'`, `url = url.rstrip('/') + '/'`"""
+    for n in ast.walk(fn):
+        if isinstance(n, ast.If):
+            t = n.test
+            neg_ends = isinstance(t, ast.UnaryOp) and isinstance(t.op, ast.Not) and isinstance(t.operand, ast.Call) and \
+                isinstance(t.operand.func, ast.Attribute) and t.operand.func.attr == "endswith" and \
+                [ast.unparse(a) for a in t.operand.args] == ["'/'"]
+            last_ne = isinstance(t, ast.Compare) and isinstance(t.ops[0], ast.NotEq) and isinstance(t.left, ast.Subscript) and \
+                ast.unparse(t.left.slice) in ("-1", "-1:") and ast.unparse(t.comparators[0]) == "'/'"
+            if neg_ends or last_ne:
+                var = ast.unparse(t.operand.func.value if neg_ends else t.left.value)
+                for a in n.body:
+                    if isinstance(a, (ast.Assign, ast.AugAssign)) and var in astq.target_names(a.targets[0] if isinstance(a, ast.Assign) else a.target) \
+                            and "'/'" in ast.unparse(a.value):
+                        return n, var
+        if isinstance(n, ast.Assign) and isinstance(n.value, ast.BinOp) and isinstance(n.value.op, ast.Add) and \
+                ast.unparse(n.value.right) == "'/'" and ".rstrip('/')" in ast.unparse(n.value.left):
+            return n, ast.unparse(n.targets[0])
+    return None
 
 
 def r5_remote_base_url(ctx, rep):
     py = ctx.py
     fn = py.func("external_project.load_external_modules")
-    norm = None
-    for n in ast.walk(fn):
-        if isinstance(n, ast.If) and re.search(r"url\[-1\]\s*!=\s*'/'|not url\.endswith\('/'\)", ast.unparse(n.test)):
-            if any(isinstance(a, ast.Assign) and ast.unparse(a.targets[0]) == "url" for a in n.body):
-                norm = n
-    calls = [c for c in py.walk_calls(fn) if call_name(c) == "dict2obj"]
+    norm = _slash_normalisation(fn)
+    ev = astq.trace(fn, astq.class_method_resolver(py, None, "external_project"))
+    calls = [e for e in ev if e.kind == "inline" and call_name(e.node) == "dict2obj"] or \
+        [e for e in ev if e.kind == "call" and call_name(e.node) == "dict2obj"]
     if not calls:
         raise AnalysisError("load_external_modules: dict2obj call not found")
-    for c in calls:
-        arg = ast.unparse(c.args[2]) if len(c.args) > 2 else "?"
-        ok = norm is not None and arg == "url" and norm.lineno < c.lineno
+    d2o = py.func("external_project.dict2obj")
+    for e in calls:
+        b = astq.bind_args(e.node, d2o)
+        arg = ast.unparse(b["url"]) if "url" in b else "?"
+        ok = norm is not None and arg == norm[1] and norm[0].lineno < e.node.lineno
         rep.ob("remote base url is slash-terminated before re-basing", ok,
                "the url handed to dict2obj (urljoin base) was normalised to end with '/'" if ok else
                "dict2obj receives a remote url that was not normalised to end with '/': urljoin drops the last "
-               "path segment (https://host/projA + module/x.html -> https://host/module/x.html)", py.nloc(c))
-    for c in py.walk_calls(fn):
-        if call_name(c) == "urljoin":
-            ok = norm is not None and norm.lineno < c.lineno and ast.unparse(c.args[0]) == "url"
-            rep.ob("modules.json fetched relative to the normalised url", ok, "", py.nloc(c))
-    d2o = py.func("external_project.dict2obj")
+               "path segment (https://host/projA + module/x.html -> https://host/module/x.html)", py.nloc(e.node))
+    joins = [e for e in ev if e.kind == "call" and call_name(e.node).split(".")[-1] == "urljoin" and e.fn is not d2o]
+    for e in joins:
+        base = e.text(e.node.args[0]) if e.node.args else "?"
+        ok = norm is not None and base == norm[1] and (norm[0].lineno < e.node.lineno or e.depth > 0)
+        rep.ob("modules.json fetched relative to the normalised url", ok, "", py.nloc(e.node))
     rec = [c for c in py.walk_calls(d2o) if call_name(c) == "dict2obj"]
-    ok = all(len(c.args) > 2 and ast.unparse(c.args[2]) == "url" for c in rec) and len(rec) >= 2
+    ok = len(rec) >= 2 and all(ast.unparse(astq.bind_args(c, d2o).get("url", ast.Constant(value=None))) == "url" for c in rec)
     rep.ob("dict2obj passes the same base url to nested entities", ok, "", py.nloc(d2o))
 
 
 def r6_fresh_objects_and_node_urls(ctx, rep):
     py = ctx.py
     d2o = py.func("external_project.dict2obj")
-    rets = [ast.unparse(r.value) for r in ast.walk(d2o) if isinstance(r, ast.Return) and r.value is not None]
-    asg = [n for n in ast.walk(d2o) if isinstance(n, ast.Assign) and ast.unparse(n.targets[0]) == "extObj"]
-    ok = set(rets) <= {"extDict", "extObj"} and len(asg) == 1 and "ENTITIES[obj_type](name, external_url, parent)" in ast.unparse(asg[0].value)
+    desc_param = d2o.args.args[1].arg
+    ctor_vars = {t for st, v in [(n, n.value) for n in ast.walk(d2o) if isinstance(n, ast.Assign)]
+                 if isinstance(v, ast.Call) and isinstance(v.func, ast.Subscript) and ast.unparse(v.func.value) == "ENTITIES"
+                 for t in astq.target_names(st.targets[0])}
+    if not ctor_vars:
+        raise AnalysisError("dict2obj: `x = ENTITIES[...](...)` not found")
+    rets = [r for r in astq.returns(d2o)]
+    foreign = [ast.unparse(r) for r in rets if not (isinstance(r, ast.Name) and (r.id in ctor_vars or r.id == desc_param))]
+    ok = not foreign and any(isinstance(r, ast.Name) and r.id in ctor_vars for r in rets)
     rep.ob("dict2obj builds one fresh object per exported entity", ok,
            "every entry of modules.json becomes its own object carrying its own URL" if ok else
-           f"dict2obj returns {sorted(set(rets))}: an entry can be replaced by a previously registered object of the same "
+           f"dict2obj also returns {sorted(set(foreign))}: an entry can be replaced by a previously registered object of the same "
            f"name, so a type/procedure that exists in two modules of the other project is linked to the wrong page",
            py.nloc(d2o))
-    ok = "project_list.append(extObj)" in ast.unparse(d2o)
+    apps = [c for c in py.walk_calls(d2o) if isinstance(c.func, ast.Attribute) and c.func.attr == "append" and c.args
+            and isinstance(c.args[0], ast.Name) and c.args[0].id in ctor_vars
+            and any("_project_list" in ast.unparse(e) for e in astq.expand_locals(c.func.value, d2o))]
+    par = astq.parents_of(d2o)
+    ok = bool(apps) and not astq.conditions_of(apps[0], par, stop=d2o)
     rep.ob("every external object is registered in its project list", ok, "", py.nloc(d2o))
     # graph nodes: URLs of external entities (remote or local path) are used as they are
     bn = py.func("BaseNode.__init__")
-    raw = None
-    for n in ast.walk(bn):
-        if isinstance(n, ast.If) and any(isinstance(a, ast.Assign) and ast.unparse(a.value) == "self.url"
-                                         and "URL" in ast.unparse(a.targets[0]) for a in n.body):
-            raw = n
-    if raw is None:
-        raise AnalysisError("BaseNode.__init__: raw-URL branch not found")
-    t = ast.unparse(raw.test)
-    ok = "external_url" in t and "fromstr" in t
+    ev = astq.trace(bn)
+    url_asg = [e for e in ev if e.kind == "assign" and e.target and "URL" in e.target and "attribs" in e.target]
+    if len(url_asg) < 2:
+        raise AnalysisError("BaseNode.__init__: the raw / re-based assignments of attribs['URL'] were not found")
+    raw = [e for e in url_asg if e.text(e.value) == "self.url"]
+    based = [e for e in url_asg if e not in raw]
+    if not raw or not based:
+        raise AnalysisError("BaseNode.__init__: expected one raw and one re-based URL assignment")
+
+    def says_external(conds: List[str], positive: bool) -> bool:
+        for c in conds:
+            neg = c.startswith("not (")
+            if ("external_url" in c or "External" in c) and (neg != positive):
+                return True
+        return False
+    ok = says_external(raw[0].cond_texts(), True) or says_external(based[0].cond_texts(), False)
     rep.ob("graph node URL of an external entity is not re-based", ok,
-           "`self.fromstr or hasattr(obj, 'external_url')` selects the URL as recorded" if ok else
-           f"the raw-URL branch is selected by `{t}`: an external project given by a local path has a file-system URL, "
-           f"which then gets the '../' prefix of local pages and points nowhere", py.nloc(raw))
+           "external entities (hasattr external_url) take the URL as recorded" if ok else
+           f"the raw-URL branch is selected by {raw[0].cond_texts()[-1:]}: an external project given by a local path has a "
+           f"file-system URL, which then gets the '../' prefix of local pages and points nowhere", py.nloc(raw[0].node))
 
 
 STR_CALLS = {"str", "urljoin", "format", "join", "as_posix", "fspath"}
 PATH_CALLS = {"Path", "resolve", "joinpath", "absolute", "expanduser", "PurePath", "PosixPath"}
 
 
-def expr_type(e: ast.AST) -> str:
+def expr_type(e: ast.AST, py=None, fn=None) -> str:
     """'str' | 'path' | 'json' (value taken out of the JSON dictionary) | '?'"""
     if isinstance(e, ast.JoinedStr) or (isinstance(e, ast.Constant) and isinstance(e.value, str)):
         return "str"
@@ -397,6 +514,23 @@ def expr_type(e: ast.AST) -> str:
         return "str"
     if isinstance(e, ast.Subscript) or (isinstance(e, ast.Call) and call_name(e).endswith(".get")):
         return "json"
+    if isinstance(e, ast.IfExp):
+        a, b = expr_type(e.body, py, fn), expr_type(e.orelse, py, fn)
+        return a if a == b else ("str" if {a, b} <= {"str", "json"} else "?" if "?" in (a, b) else "path")
+    if py is not None and isinstance(e, ast.Call) and isinstance(e.func, ast.Name) and f"external_project.{e.func.id}" in py.functions:
+        # a helper of this module: every returned expression must have the same kind
+        h = py.functions[f"external_project.{e.func.id}"]
+        kinds = {expr_type(r, py, h) for r in astq.returns(h)}
+        if len(kinds) == 1:
+            return kinds.pop()
+        if kinds and kinds <= {"str", "json"}:
+            return "str"
+        return "path" if "path" in kinds else "?"
+    if fn is not None and isinstance(e, ast.Name):
+        vals = [v for _, v in astq.assignments(fn, e.id) if v is not None]
+        kinds = {expr_type(v, py, None) for v in vals}
+        if len(kinds) == 1:
+            return kinds.pop()
     return "?"
 
 
@@ -414,7 +548,7 @@ def r7_url_types(ctx, rep):
     if not asg:
         raise AnalysisError(f"dict2obj: no assignment to {var}")
     for a in asg:
-        t = expr_type(a.value)
+        t = expr_type(a.value, py, d2o)
         ok = t in ("str", "json")
         rep.ob(f"dict2obj: `{var} = {ast.unparse(a.value)}` is a str", ok,
                f"value kind {t}" if ok else
